@@ -141,6 +141,7 @@ func runC19(c *Ctx) {
 	ruleCheckedNameLookup(c, "C19.15", "csvimport.colDataTypes")
 	ruleNoFloatDetour(c, "C19.16", "csvimport.csvToSql")
 	ruleErrorsWrappedWithW(c, "C19.17")
+	c02RecoveryEnds(c, "C19.18")
 	c.Rule("C19.11", "the stored row reads back as the record's values: the row codec is symmetric per column type (every value the writer emits is consumed by the reader, empty strings included) and its length prefixes are byte lengths (C08.4)")
 	checkCodecPair(c, "C19.11", "storage.(*Tuple).Encode", "storage.(*Tuple).Decode")
 	c.Rule("C19.2", "in the import loop a bad record never stops or alters the others: every error edge before the INSERT (CSV parse error, short record, conversion error) reports and continues; only a non-parse read error or EOF leaves the loop; the short-record guard rejects exactly the records that lack the largest mapped index")
@@ -700,6 +701,7 @@ func runC20(c *Ctx) {
 	c.Rule("C20.2", "the submit decision on Enter is taken from the split itself: the condition that submits the line is computed from the split's `rest` position (only blanks follow the last unquoted terminator), not from the last character of the buffer; the submitted statements are exactly the split's result, in order; the buffer is cleared only on submit")
 	c.Rule("C20.3", "no input byte is dropped: the key decoder decodes a rune only when the buffered bytes hold a full rune (utf8.FullRune guards utf8.DecodeRune), so a multi-byte character split across two reads is kept for the next read")
 	ruleNoAliasedFilter(c, "C20.6", "console")
+	ruleRestIndexesItsBuffer(c, "C20.8")
 	f := c.W.F("console.splitStatements")
 	hk := c.NeedFunc("C20.2", "console.(*Terminal).handleKey")
 	if f == nil {
